@@ -326,6 +326,8 @@ func blkMain(args []string) int {
 	fs := flag.NewFlagSet("blk", flag.ExitOnError)
 	in := fs.String("in", "", "TLC output with CASE lines")
 	workers := fs.Int("workers", 16, "workers")
+	sampleN := fs.Int("sample", 1, "run every n-th case only (offset by -seed)")
+	seed := fs.Int64("seed", 0, "offset for -sample")
 	fs.Parse(args)
 	type job struct {
 		idx  int
@@ -384,7 +386,12 @@ func blkMain(args []string) int {
 			}
 		}()
 	}
-	err := behaviourLines(*in, "CASE", func(idx int, line string) { jobs <- job{idx, line} })
+	err := behaviourLines(*in, "CASE", func(idx int, line string) {
+		if *sampleN > 1 && (int64(idx)+*seed)%int64(*sampleN) != 0 {
+			return
+		}
+		jobs <- job{idx, line}
+	})
 	close(jobs)
 	wg.Wait()
 	if err != nil {
